@@ -361,6 +361,33 @@ THEOREMS_FOR_CLASS = {
 }
 
 
+def describe_diff(new, gone):
+    """one line per moved site, so that a maintainer can tell a harmless re-pin (the text of an existing site
+    was edited) from a real new iteration/impurity site:
+      REWRITTEN <file>::<def>::<kind>: `<old text>` -> `<new text>`     same place and kind, text changed
+      ADDED     <site>                                                    no pinned counterpart: classify it
+      REMOVED   <site>                                                    pinned site no longer in the source"""
+    def parts(k):
+        f, w, kind, text = k.split("::", 3)
+        return (f, w, kind), text
+    g_new, g_gone = {}, {}
+    for k in new:
+        a, t = parts(k); g_new.setdefault(a, []).append(t)
+    for k in gone:
+        a, t = parts(k); g_gone.setdefault(a, []).append(t)
+    out = []
+    for a in sorted(set(g_new) | set(g_gone)):
+        n, g = g_new.get(a, []), g_gone.get(a, [])
+        head = "::".join(a)
+        for old_t, new_t in zip(g, n):
+            out.append(f"REWRITTEN {head}: `{old_t}` -> `{new_t}`")
+        for t in n[len(g):]:
+            out.append(f"ADDED {head}::{t}  (no pinned counterpart: a new set/sort/impurity site to classify)")
+        for t in g[len(n):]:
+            out.append(f"REMOVED {head}::{t}")
+    return out
+
+
 def check_inventory(ctx):
     """scan(/repo) must equal the pinned inventory; every class used must have its theorems discharged"""
     from props import c10_scan
@@ -373,8 +400,10 @@ def check_inventory(ctx):
     ctx.notes["inventory"] = {"sites_scanned": len(scanned), "sites_pinned": len(pinned["sites"]), "by_class": classes,
                               "new_sites": new[:20], "missing_sites": gone[:20], "root": c10_scan.repo_root()}
     ok_sites = not new and not gone
+    moved = describe_diff(new, gone)
+    ctx.notes["inventory"]["moved"] = moved
     detail = "scan == pinned inventory (%d sites)" % len(scanned) if ok_sites else \
-        f"{len(new)} new/changed site(s), {len(gone)} pinned site(s) gone; first: {(new + gone)[0]}"
+        f"{len(new)} new/changed site(s), {len(gone)} pinned site(s) gone: " + " || ".join(moved[:40])
     ok_attrs = attrs == pinned.get("set_valued_names")
     bad_cls = sorted(c for c in classes if c not in ("S1", "S2", "S3", "S4", "S5", "N", "I"))
     obligations = [("inventory:sites", ok_sites, detail),
@@ -539,9 +568,11 @@ def t2_schema(ctx, r, req, spec):
             if body == "*":
                 continue
             r.shuffle(fields)
-            ops.append({"op": "c10.query_params", "fields": fields, "path": list(m.path_params), "body": body})
+            from gapic.utils import RESERVED_NAMES
+            pparams = [p + "_" if p in RESERVED_NAMES else p for p in m.path_params]     # as Method.query_params does
+            ops.append({"op": "c10.query_params", "fields": fields, "path": pparams, "body": body})
             real = [x for x in tpl_q.render(qs=m.query_params).split(",") if x]
-            checks.append(("query_params", real, None, {"fields": fields, "path": list(m.path_params), "body": body}))
+            checks.append(("query_params", real, None, {"fields": fields, "path": pparams, "body": body}))
         # Service.names: module names imported from more than one package
         types = []
         for m in svc.methods.values():
